@@ -490,11 +490,6 @@ impl Runtype {
     #[verifier::external_body] pub fn required(self) -> (r: Optionality<Runtype>) ensures r == Optionality::Required(self) { unimplemented!() }
     #[verifier::external_body] pub fn optional(self) -> (r: Optionality<Runtype>) ensures r == Optionality::Optional(self) { unimplemented!() }
 }
-// T2: String's Ord is a lawful total order (what vstd's BTreeMap specifications ask of the key type)
-#[verifier::external_body]
-pub proof fn axiom_string_cmp()
-    ensures vstd::laws_cmp::obeys_cmp_spec::<String>()
-{}
 // R18: `BTreeMap::from_iter(v)` on a Vec of pairs (assumed std behaviour: later entries win)
 pub open spec fn last_wins<K, V>(s: Seq<(K, V)>, i: int) -> bool { forall|j: int| i < j < s.len() ==> s[j].0 != s[i].0 }
 pub open spec fn map_of_pairs<K, V>(pairs: Seq<(K, V)>, m: Map<K, V>) -> bool {
@@ -604,14 +599,6 @@ pub broadcast proof fn lemma_obj_atom(ctx: SemTypeContext, mt: MappingAtomicType
 pub open spec fn mt_obj_ok(ctx: SemTypeContext, mt: MappingAtomicType) -> bool {
     &&& forall|s: String| mt.vs@.contains_key(s) ==> ty_ok(ctx, *#[trigger] mt.vs@[s])
     &&& match mt.indexed_properties { Some(ip) => ty_ok(ctx, *ip.key) && ty_ok(ctx, *ip.value), None => true }
-}
-// the entries a BTreeMap's iterator yields, against the map's view (what vstd's specification of `iter` gives
-// for a lawfully ordered key type)
-pub open spec fn kv_seq_ok<K, V>(s: Seq<(&K, &V)>, m: Map<K, V>) -> bool {
-    &&& s.len() == m.len()
-    &&& s.no_duplicates()
-    &&& forall|i: int| 0 <= i < s.len() ==> m.contains_key(*s[i].0) && m[*s[i].0] == *s[i].1
-    &&& forall|k: K| m.contains_key(k) ==> exists|i: int| 0 <= i < s.len() && *s[i].0 == k
 }
 // the component types stored in the context's tables are themselves in the fragment C07 is stated for
 pub open spec fn ty_ok(ctx: SemTypeContext, t: SemType) -> bool { wf(t) && flat(t) && kinds_ok(ctx, t) }
